@@ -19,6 +19,7 @@ case (JSON):
                   events; only meaningful for sched == [] (non-preemptive default: every thread runs
                   until its loop idles, so the gates of the cache do not change the interleaving)
    'none': 0|1    successful invocations return None (a legitimate result that must be cached like any other)
+   'aw': 0|1      successful invocations return an awaitable object (must be cached like any other result)
    'cache': 'dict' (default: gated dict subclass) | 'map' (gated MutableMapping that is not a dict)
   }
 Caller ids are global, numbered thread by thread in program order.
@@ -59,6 +60,19 @@ LIB_CLASSES = ['KeyError', 'CancelledError', 'RuntimeError', 'TimeoutError', 'In
 # keys used by the generators are DISTINCT arguments whose hashes (and the hashes of the argument
 # tuples built from them) collide: a cache that keys on the hash mixes them up.
 KEY_ARG = {0: -1, 1: -2}
+
+
+class HResult:
+    """'aw' mode: a successful result that is itself a reusable awaitable (has __await__), like an
+    already-completed Future; it still carries the id of the invocation that produced it."""
+
+    def __init__(self, inv):
+        self.inv = inv
+
+    def __await__(self):
+        if False:
+            yield
+        return self.inv
 
 
 class HarnessExc(Exception):
@@ -261,6 +275,9 @@ def _thread_body(R, ti, fn):
                     # invocations (a cached None must still be a hit) and the kinds of the outcomes
                     R.log('done', cid, 0, R.last_ok.get(KEY_ARG.get(key, key), 4998), R.tick())
                     return
+                if isinstance(v, HResult):
+                    R.log('done', cid, 0, v.inv, R.tick())
+                    return
                 ok = isinstance(v, tuple) and len(v) == 2 and v[0] == 'v'
                 R.log('done', cid, 0 if ok else 3, v[1] if ok else len(LIB_CLASSES) + 1, R.tick())
 
@@ -331,6 +348,8 @@ def _make_fn(R, lib, cache):
         if ok:
             R.log('iend', i, 0, R.tick())
             R.last_ok[arg] = i
+            if R.case.get('aw'):
+                return HResult(i)
             return None if R.case.get('none') else ('v', i)
         R.log('iend', i, 1, R.tick())
         raise HarnessExc(i)
@@ -353,7 +372,7 @@ def _make_fn(R, lib, cache):
     return lib.threadsafe_async_cache(cache=cache)(user)
 
 
-def run_once(case, gated_cache=True, wall=30.0, want_choices=False):
+def run_once(case, gated_cache=True, wall=8.0, want_choices=False):
     """One gated run; returns the canonical trace (list of lists)
     (with want_choices: (trace, [(enabled thread indices, chosen index)] per decision))."""
     import aiuti.asyncio as lib
